@@ -56,7 +56,8 @@ class DocstringParser(AbstractDocstringParser):
 
             for docstring_section in griffe_node.docstring.parsed:
                 if docstring_section.kind == DocstringSectionKind.text:
-                    description = docstring_section.value.strip("\n")
+                    # Text can also follow the other sections, it doesn't replace the text before them
+                    description = f"{description}\n\n{docstring_section.value}".strip("\n")
                 elif docstring_section.kind == DocstringSectionKind.examples:
                     for example_data in docstring_section.value:
                         examples.append(example_data[1].strip("\n"))
@@ -76,7 +77,8 @@ class DocstringParser(AbstractDocstringParser):
             docstring = griffe_docstring.value.strip("\n")
             for docstring_section in griffe_docstring.parsed:
                 if docstring_section.kind == DocstringSectionKind.text:
-                    description = docstring_section.value.strip("\n")
+                    # Text can also follow the other sections, it doesn't replace the text before them
+                    description = f"{description}\n\n{docstring_section.value}".strip("\n")
                 elif docstring_section.kind == DocstringSectionKind.examples:
                     for example_data in docstring_section.value:
                         examples.append(example_data[1].strip("\n"))
